@@ -206,7 +206,7 @@ fn gen_script(rng: &mut Rng, data: &[u8]) -> Vec<ReadStep> {
             1 => script.len(),
             _ => rng.urange(0, script.len()),
         };
-        script.insert(at, ReadStep::Fail(kind));
+        script.insert(at, if rng.chance(1, 3) { ReadStep::FailForever(kind) } else { ReadStep::Fail(kind) });
     } else if rng.chance(1, 6) {
         let at = rng.urange(0, script.len());
         script.insert(at, ReadStep::Eof);
@@ -581,7 +581,7 @@ impl Property for C13 {
             .take(48)
             .collect();
         for k in 0..=base.len() {
-            for st in [ReadStep::Fail(ErrKind::Other), ReadStep::Intr, ReadStep::Eof] {
+            for st in [ReadStep::Fail(ErrKind::Other), ReadStep::FailForever(ErrKind::TimedOut), ReadStep::Intr, ReadStep::Eof] {
                 let mut s = base.clone();
                 s.insert(k, st);
                 out.push(Sc {
